@@ -14,6 +14,7 @@ struct PmrCfg {
 	static constexpr int  dmin = 1, dmax = 2;
 	static constexpr bool static_arrays = false;
 	static constexpr bool serialization = false;
+	static constexpr bool mpi = false;
 	static auto make_alloc(int arena) -> alloc { return alloc{&pmr_res(arena)}; }
 	static int  arena_of(alloc const& a) {
 		for(int i = 0; i < World::NARENA; ++i)
